@@ -6,6 +6,7 @@ From Coq Require Import List Arith Lia Bool PeanoNat String.
 Import ListNotations.
 Notation length := List.length.
 From SP Require Import Skel Gen Expected NetA Inv Pres Dead Top Ghost GhostPres NetTop.
+From SP Require WfModel AuditModel.
 
 (* T1: the code shape the transition system was written against *)
 Theorem C04_code_conforms :
@@ -78,6 +79,28 @@ Proof.
            (reachable_inv c len gc WF sched1 s1 g1 O1 R1) F1 (reachable_inv c len gc WF sched2 s2 g2 O2 R2) F2).
 Qed.
 
+(* the zip equation: in a completed run the k-th task of a process consists of the outputs of the k-th tasks of its
+   producers (for a source: its k-th item) ... *)
+Theorem C04_zip_equation : forall (c : cfg) (len : nat -> nat) (gc : gcfg),
+  wf c len -> (forall v L, slen c v = Some L -> length (sitems gc v) = L) ->
+  forall sched s g, sched_ok c sched -> grun c gc (init c) ginit sched = Some (s, g) -> final c s ->
+  forall v k, v < nn c -> k < len v ->
+  nth k (crt g v) [] =
+  match slen c v with
+  | Some _ => [nth k (sitems gc v) 0]
+  | None => map (fun y => nth k (map (outf gc (esrc c y) y) (crt g (esrc c y))) 0) (ins c v)
+  end.
+Proof.
+  intros c len gc WF SL sched s g Hok Hrun HF v k Hv Hk.
+  exact (final_zip_equation c len gc WF s g v k (reachable_inv c len gc WF sched s g Hok Hrun) HF Hv Hk).
+Qed.
+
+(* ... which is the recursion the sequential reference evaluator used by the correspondence check computes: its round k
+   takes the k-th item of every in-column *)
+Theorem C04_reference_evaluator_zips : forall (A : Type) (d : A) (n : nat) (cols : list (list A)) (k : nat), k < n ->
+  nth k (WfModel.transpose_n d n cols) [] = map (fun col => nth k col d) cols.
+Proof. exact @AuditModel.transpose_nth. Qed.
+
 (* non-vacuity: the diamond 0 -> {1,2} -> 3 with a 2-item source and capacity 1 is a well-formed configuration *)
 Theorem C04_nonvacuous : wf dia (fun _ => 2).
 Proof. exact dia_wf. Qed.
@@ -87,4 +110,6 @@ Print Assumptions C04_tasks_are_zip.
 Print Assumptions C04_emitted_exactly_once.
 Print Assumptions C04_complete.
 Print Assumptions C04_deterministic.
+Print Assumptions C04_zip_equation.
+Print Assumptions C04_reference_evaluator_zips.
 Print Assumptions C04_nonvacuous.
